@@ -53,6 +53,25 @@ type ZeroPtr struct{ V int }
 
 func (z *ZeroPtr) IsZero() bool { return z.V == 0 }
 
+// Named primitive types with an IsZero that is NOT "is the Go zero value": omitempty
+// has to ask the method, whatever the kind and however the value is reached.
+type ZInt int
+
+func (z ZInt) IsZero() bool { return z <= 0 }
+
+type ZF64 float64
+
+func (z ZF64) IsZero() bool { return !(z > 0) }
+
+// ZFlag and ZU8 implement IsZero with a pointer receiver.
+type ZFlag bool
+
+func (z *ZFlag) IsZero() bool { return !bool(*z) }
+
+type ZU8 uint8
+
+func (z *ZU8) IsZero() bool { return *z%2 == 0 }
+
 // ---- Folder (fold side only: output defined by the type) ----
 
 // FolderObj emits an object {"fa": A, "fb": B} (value receiver).
@@ -363,6 +382,10 @@ var Pool = []PoolType{
 	{Name: "NArrStr", Type: reflect.TypeOf(NArrStr{}), FoldOnly: true},
 	{Name: "ZeroVal", Type: reflect.TypeOf(ZeroVal{})},
 	{Name: "ZeroPtr", Type: reflect.TypeOf(ZeroPtr{})},
+	{Name: "ZInt", Type: reflect.TypeOf(ZInt(0))},
+	{Name: "ZF64", Type: reflect.TypeOf(ZF64(0))},
+	{Name: "ZFlag", Type: reflect.TypeOf(ZFlag(false))},
+	{Name: "ZU8", Type: reflect.TypeOf(ZU8(0))},
 	{Name: "WithEmb", Type: reflect.TypeOf(WithEmb{})},
 	{Name: "FRefObj", Type: reflect.TypeOf(FRefObj{})},
 	{Name: "FolderObj", Type: reflect.TypeOf(FolderObj{}), FoldOnly: true},
